@@ -14,7 +14,9 @@ RULE = ("cases = (function, integer-microsecond inputs) drawn from a boundary gr
         "exact multiples of the period +-1us, periods 1s..years, ttl boundary +-1us) and a seeded PRNG; distinct by the "
         "printed Coq term; non-trivial = back-off not clamped by both min and max / periodic or deferred parameters / "
         "ttl present")
-TRUSTED = ["timedelta//timedelta, timedelta*int, datetime+timedelta are exact integer operations (CPython)"]
+TRUSTED = ["timedelta//timedelta, timedelta*int, datetime+timedelta are exact integer operations (CPython)",
+           "harness/translate.py (Python ast -> Gallina, fail-closed) and its conventions: datetime.now() = parameter now, times in integer "
+           "microseconds, cron = None, deepcopy = identity, object.__setattr__ = functional update"]
 ASSUMPTIONS = ["cron schedules are not modelled (croniter is not installed)"]
 S = 1_000_000
 
